@@ -226,7 +226,7 @@ func (e *kvElection) Start(ctx context.Context) error {
 		if err := e.attemptAcquire(); err != nil {
 			e.recordAcquireAttempt("failed")
 			e.recordFailure(classifyErrorType(err))
-			e.becomeFollower()
+			e.settleAsFollower()
 		}
 	}()
 
@@ -259,6 +259,12 @@ func (e *kvElection) attemptAcquireWithRetry(ctx context.Context) {
 		default:
 		}
 
+		// Another acquisition round of this instance may have won meanwhile
+		// (watch event and periodic check both trigger rounds).
+		if e.IsLeader() {
+			return
+		}
+
 		err := e.attemptAcquire()
 		if err == nil {
 			return
@@ -275,7 +281,7 @@ func (e *kvElection) attemptAcquireWithRetry(ctx context.Context) {
 					zap.Error(err),
 				)...,
 			)
-			e.becomeFollower()
+			e.settleAsFollower()
 			return
 		}
 
@@ -477,7 +483,23 @@ func (e *kvElection) attemptPriorityTakeover(payloadBytes []byte) error {
 func (e *kvElection) becomeFollower() {
 	e.mu.Lock()
 	defer e.mu.Unlock()
+	e.becomeFollowerLocked()
+}
 
+// settleAsFollower moves a candidate whose acquisition failed into the follower
+// state. A failed acquisition attempt must never demote an instance that has
+// become leader meanwhile through another attempt of its own, so the check and
+// the transition happen under the same lock that becomeLeader takes.
+func (e *kvElection) settleAsFollower() {
+	e.mu.Lock()
+	defer e.mu.Unlock()
+	if e.isLeader.Load() {
+		return
+	}
+	e.becomeFollowerLocked()
+}
+
+func (e *kvElection) becomeFollowerLocked() {
 	fromState := StateInit
 	if s := e.state.Load(); s != nil {
 		if str, ok := s.(string); ok {
